@@ -165,6 +165,12 @@ public:
     auto phase1 = shutdownPhase1_SignalShutdown();
     if (phase1.wasAlreadyShutdown)
     {
+      // stop()/shutdown() already ran. A submission accepted just before the
+      // shutdown flag was set may still have registered its worker AFTER
+      // shutdown()'s join pass; destroying that joinable std::thread with the
+      // map would call std::terminate. Join any such straggler (it exits at
+      // once: shutdown is set and the queue is empty).
+      shutdownPhase4_JoinThreads();
       return;
     }
 
